@@ -21,6 +21,10 @@ def one(name):
         env = dict(os.environ, VERIF_SEED=str(s))
         p = subprocess.run([os.path.join(HERE, "tools", "try_patch.sh"), os.path.join(d, "patch.diff"), pid], capture_output=True, text=True, env=env)
         line = [l for l in p.stdout.splitlines() if l.startswith(pid + ":")]
+        if "PATCH-DOES-NOT-APPLY" in p.stdout:
+            res[str(s)] = "n/a"
+            meta["obsolete"] = "the patch no longer applies: the code it changes was rewritten by a later fix: commit in /repo"
+            break
         res[str(s)] = "caught" if line and "CAUGHT" in line[0] else ("harness-error" if line and "HARNESS" in line[0] else "missed")
         if s == 1 and line:
             meta["checks"].setdefault(pid, {})["verdict"] = res["1"] if res["1"] != "missed" else "quiet"
@@ -32,7 +36,7 @@ def one(name):
 
 def main():
     names = sys.argv[1:] or sorted(os.path.basename(os.path.dirname(p)) for p in glob.glob(os.path.join(HERE, "seeded", "*", "meta.json")))
-    with ThreadPoolExecutor(3) as ex:
+    with ThreadPoolExecutor(4) as ex:
         for name, sweep in ex.map(one, names):
             print(name, sweep)
             sys.stdout.flush()
